@@ -79,6 +79,13 @@ class PlanConfig:
             self.slow_close_num = 5
             self.src_fault_num = 3
             self.slowc_num = 4
+        if focus == "streamfail":
+            # streams over asynchronous sources whose awaitable items fail and cancel slowly
+            self.async_num = 6
+            self.iter_num = 6
+            self.slowc_num = 5
+            self.fault_num = 5
+            self.src_fault_num = 2
         if focus == "background":
             # many synchronous failures next to asynchronous siblings: chains of work that the
             # executor settles in the background (what the async_work_finished hook waits for)
@@ -89,10 +96,10 @@ class PlanConfig:
             # every position asynchronous, failures only as raising awaitables, slow cancellation
             # common, no source failures: subtrees cannot orphan work (strict seriality applies)
             self.async_num = 8
-            self.fault_num = 3
+            self.fault_num = 8
             self.src_fault_num = 0
             self.iter_num = 0
-            self.slowc_num = 4
+            self.slowc_num = 5
 
 
 class Planner:
@@ -131,7 +138,9 @@ class Planner:
             if tp.draw(8, "f_slowc") < cfg.slowc_num:
                 fp.delivery = "slowc"  # catches cancellation, awaits a cleanup external, re-raises
             self.n_async += 1
-        if tp.draw(24, "f_fault") < cfg.fault_num:
+        if (tp.draw(24, "f_fault") < cfg.fault_num
+                and (cfg.focus != "seriality" or is_non_null_type(t))):
+            # (seriality focus: only failures that propagate, i.e. on non-null positions)
             inner = t.of_type if is_non_null_type(t) else t
             kinds = ["raise", "ret_exc", "null", "raise"]
             if is_list_type(inner):
@@ -160,7 +169,8 @@ class Planner:
         tp = self.t
         cfg = self.cfg
         ip = ItemPlan()
-        if tp.draw(8, "i_async") < cfg.async_num // 2:
+        if tp.draw(8, "i_async") < (cfg.async_num if cfg.focus == "seriality"
+                                    else cfg.async_num // 2):
             ip.delivery = "future"
             if tp.draw(8, "i_slowc") < cfg.slowc_num:
                 ip.delivery = "slowc"  # awaitable item whose cancellation takes time
